@@ -327,6 +327,14 @@ func directedScenarios() []directedT {
 				{Kind: "cmd", Arg: "stop"}, {Kind: "cmd", Arg: "isready"}},
 			rules: []sched.Rule{{Point: "uci.fwd.closed", Occ: 1, Until: "uci.stop.halted", UntilOcc: 1, Timeout: h}},
 		},
+		{ // ... and both completers are inside searchCompleted at once: the first to claim the answer is held (its
+			// claim is in the trace) until the second one has arrived - the claim must be atomic, one bestmove only
+			name: "stop-and-completion-both-inside",
+			steps: []stepT{{Kind: "cmd", Arg: "position startpos"}, {Kind: "cmd", Arg: "go depth 1"}, {Kind: "release", K: 1, D: 1},
+				{Kind: "cmd", Arg: "stop"}, {Kind: "cmd", Arg: "isready"}},
+			rules: []sched.Rule{{Point: "uci.fwd.closed", Occ: 1, Until: "uci.stop.halted", UntilOcc: 1, Timeout: h},
+				{Point: "uci.complete.won", Occ: 1, Until: "uci.complete.try", UntilOcc: 2, Timeout: h, Late: true}},
+		},
 		{ // the movetime timer of a superseded go fires during the next (infinite) search; then stop
 			name: "stale-movetime-timer",
 			steps: []stepT{{Kind: "cmd", Arg: "position startpos"}, {Kind: "cmd", Arg: "go movetime 40"}, {Kind: "release", K: 1, D: 1},
